@@ -89,6 +89,22 @@ Definition declared_events_v0 (decl : json) : list bytes :=
   | _ => all3
   end.
 
+(* what a v1 kubernetes binding SELECTS is part of the declared binding: apiVersion, the object
+   names, the namespaces by name AND by label (the schema allows both selectors of `namespace`
+   side by side), label and field selectors - each as declared, absent when not declared *)
+Definition declared_names (o : option json) : json :=
+  match o with Some ns => jstrs (get_strs (bs "matchNames") ns) | None => JNull end.
+Definition declared_or_null (o : option json) : json := match o with Some x => x | None => JNull end.
+Definition selects_ok (decl eff : json) : bool :=
+  has (bs "apiVersion") (JStr (get_str (bs "apiVersion") decl)) eff
+  && has (bs "names") (declared_names (jget (bs "nameSelector") decl)) eff
+  && has (bs "namespaces")
+         (declared_names (match jget (bs "namespace") decl with Some ns => jget (bs "nameSelector") ns | None => None end)) eff
+  && has (bs "labelSelector") (declared_or_null (jget (bs "labelSelector") decl)) eff
+  && has (bs "fieldSelector") (declared_or_null (jget (bs "fieldSelector") decl)) eff
+  && has (bs "namespaceLabelSelector")
+         (declared_or_null (match jget (bs "namespace") decl with Some ns => jget (bs "labelSelector") ns | None => None end)) eff.
+
 Definition kube_ok (v1 : bool) (decl eff : json) : bool :=
   has (bs "name") (JStr (or_default (get_str (bs "name") decl) (if v1 then bs "kubernetes" else bs "onKubernetesEvent"))) eff
   && has (bs "queue") (JStr (if v1 then or_default (get_str (bs "queue") decl) (bs "main") else bs "main")) eff
@@ -102,6 +118,7 @@ Definition kube_ok (v1 : bool) (decl eff : json) : bool :=
            && has (bs "group") (JStr (get_str (bs "group") decl)) eff
            && has (bs "jqFilter") (JStr (get_str (bs "jqFilter") decl)) eff
            && incl_ok decl eff
+           && selects_ok decl eff
       else true).
 
 Definition named_ok (decl eff : json) : bool :=
